@@ -334,7 +334,12 @@ int run_phantom_micro(const Args& a) {
                 status s = yk::scan<char>(storage, race.lk, scan_endpoint::INCLUSIVE, race.rk, scan_endpoint::INCLUSIVE, tl, &nv, 0, false);
                 rresp = stamp();
                 if (s != status::OK) { reader_problem = "status " + st(s); }
-                for (auto& t : tl) { result_keys.push_back(std::get<0>(t)); }
+                for (auto& t : tl) {
+                    result_keys.push_back(std::get<0>(t));
+                    uint64_t vid = 0;
+                    ValCheck vc = check_value(std::get<1>(t), std::get<2>(t), std::get<0>(t), vid);
+                    if (vc != ValCheck::OK && reader_problem.empty()) { reader_problem = std::string("value ") + valcheck_name(vc) + " for key " + std::get<0>(t); }
+                }
             } else {
                 std::function<bool(yk::node_version64*, yk::node_version64_body)> cb = [&nv](yk::node_version64* p, yk::node_version64_body b) {
                     nv.emplace_back(b, p);
@@ -345,7 +350,12 @@ int run_phantom_micro(const Args& a) {
                 status s = cursor_collect(storage, race.lk, scan_endpoint::INCLUSIVE, race.rk, scan_endpoint::INCLUSIVE, r2l, items, 0, &cb);
                 rresp = stamp();
                 if (s != status::OK_SCAN_END) { reader_problem = "status " + st(s); }
-                for (auto& it : items) { result_keys.push_back(it.key); }
+                for (auto& it : items) {
+                    result_keys.push_back(it.key);
+                    uint64_t vid = 0;
+                    ValCheck vc = check_value_nolen(static_cast<char*>(it.value), it.key, vid);
+                    if (vc != ValCheck::OK && reader_problem.empty()) { reader_problem = std::string("value ") + valcheck_name(vc) + " for key " + it.key; }
+                }
                 if (r2l) { std::reverse(result_keys.begin(), result_keys.end()); }
             }
             for (uint64_t w = 0; writer_done.load(std::memory_order_acquire) == 0; ++w) {
@@ -552,7 +562,7 @@ int run_phantom_micro(const Args& a) {
             if (!std::binary_search(want.begin(), want.end(), result_keys[i])) { ordered = false; }
         }
         if (!reader_problem.empty()) {
-            rep.violation("phantom:reader-status", "reader failed: " + reader_problem, describe().done());
+            rep.violation(reader_problem.rfind("value", 0) == 0 ? "phantom:reader-invalid-value" : "phantom:reader-status", "reader failed: " + reader_problem, describe().done());
         } else if (!ordered) {
             // independent of the freshness of the version set: duplicates, disorder, keys outside the interval
             rep.violation(std::string("phantom:") + (use_cursor ? "iscan" : "scan") + ":result-not-ascending-subset-of-interval",
